@@ -568,3 +568,119 @@ SPECS["C18"] = v1spec(
     floor_nontrivial={"quick": 400, "thorough": 1500},
     timeout={"quick": 1500, "thorough": 3 * 3600},
 )
+
+
+ROOT_STUBS = ("classifier_test.go",)
+
+
+def run_c15(ctx, spec):
+    tier = ctx["tier"]
+    scratch = ctx["scratch"]
+    ser_bin, bt1 = driver.build_test(scratch, ".", "serializer", ["serializer"], out="serializer")
+    root_bin, bt2 = driver.build_test(scratch, ".", ".", ["root"], stubs=ROOT_STUBS, out="root")
+    ctx["gomaxprocs"] = 8
+    # step 1: the real ArchiveLicenses writes the archives (always the full plan: step 2 indexes into it)
+    ctx["tag"] = "C15ser"
+    ev1, cr1, sg1 = driver.run_sharded(ctx, ser_bin, "TestVerifC15Archive", os.path.join(driver.REPO, "serializer"), 1, 3600,
+                                       extra_env={"VERIF_WORKERS": "1", "VERIF_CASE_TIMEOUT": "900"})
+    env = {"VERIF_WORKERS": str({"quick": 6, "thorough": 8}[tier]), "VERIF_CASE_TIMEOUT": "1800"}
+    nshards = 1
+    if ctx.get("only") is not None:
+        env["VERIF_ONLY"] = str(ctx["only"])
+        env["VERIF_WORKERS"] = "1"
+    ctx["tag"] = "C15root"
+    ev2, cr2, sg2 = driver.run_sharded(ctx, root_bin, "TestVerifC15", driver.REPO, nshards, 3 * 3600, extra_env=env)
+    ctx["expected_dones"] = 2
+    ctx["tag"] = "C15"
+    cov = {"harness_build_s": {"serializer": round(bt1, 1), "root": round(bt2, 1)}}
+    return driver.summarize(ctx, ev1 + ev2, cr1 + cr2, set(b"s" + x for x in sg1) | set(b"r" + x for x in sg2), spec, extra_cov=cov)
+
+
+SPECS["C15"] = dict(
+    run=run_c15, test="TestVerifC15", level="exploration",
+    module=".", pkgdir=".", harness=["root"],
+    builds=[dict(module=".", pkgdir="serializer", harness=["serializer"]), dict(module=".", pkgdir=".", harness=["root"], stubs=ROOT_STUBS)],
+    title="v1 license archive round-trips",
+    technique="differential: archive-built License vs License built directly from the same normalised texts",
+    rule=("Step 1 (package serializer): the real ArchiveLicenses writes an archive for each seeded set of license files (quick: 4 subsets of 10-25 of the 178 files, one synthetic set, one mixed; "
+          "thorough: 38 subsets of 5-44 files, the full 178, 20 synthetic/mixed sets; a non-.txt name is always included and must be skipped; synthetic files are served through the exported ReadLicenseFile variable). "
+          "Step 2 (package licenseclassifier; the root package's own classifier_test.go, whose TestMain aborts without licenses.db, is replaced by an empty stub in the overlay): each archive is loaded with "
+          "New(t, ArchiveBytes(b)) (must succeed), every license (<= 40 per archive) must be retrievable under its file name via the exact-match path of NearestMatch, no name outside the set may ever be returned, and "
+          "MultipleMatch / NearestMatch results on queries (license in context, 3%-edited, two licenses concatenated, filler) must equal those of a License built directly with AddPrecomputedValue from the same normalised "
+          "texts. Calls slower than 1.6 s per pair are not judged (go-diff deadline). case = one archive; non-trivial = archive loaded and queried; distinct = (archive, threshold)."),
+    assumptions=list(V1_ASSUME) + ["the root package's classifier_test.go is stubbed out in the overlay (its TestMain needs licenses.db, which is not in the tree)"],
+    floor_evals={"quick": 10, "thorough": 100},
+    floor_nontrivial={"quick": 10, "thorough": 100},
+)
+
+
+def run_c16(ctx, spec):
+    tier = ctx["tier"]
+    scratch = ctx["scratch"]
+    ser_bin, bt1 = driver.build_test(scratch, ".", "serializer", ["serializer"], out="serializer")
+    root_bin, bt2 = driver.build_test(scratch, ".", ".", ["root"], stubs=ROOT_STUBS, out="root")
+    ctx["gomaxprocs"] = 16
+    ctx["tag"] = "C16ser"
+    # step 1 serves C16 under the C15 harness name: it writes the archive of all license files
+    save = ctx["prop"]
+    ctx["prop"] = "C15"
+    ev1, cr1, sg1 = driver.run_sharded(ctx, ser_bin, "TestVerifC15Archive", os.path.join(driver.REPO, "serializer"), 1, 3600,
+                                       extra_env={"VERIF_WORKERS": "1", "VERIF_CASE_TIMEOUT": "900", "VERIF_C15_PLAN": "full-only"})
+    ctx["prop"] = save
+    if cr1 or not any(e.get("ev") == "done" for e in ev1):
+        raise driver.HarnessError("step 1 (writing the full archive with ArchiveLicenses) failed: %s" % (cr1[:1],))
+    env = {"VERIF_WORKERS": "4", "VERIF_CASE_TIMEOUT": "900"}
+    if ctx.get("only") is not None:
+        env["VERIF_ONLY"] = str(ctx["only"])
+        env["VERIF_WORKERS"] = "1"
+    ctx["tag"] = "C16root"
+    ev2, cr2, sg2 = driver.run_sharded(ctx, root_bin, "TestVerifC16", driver.REPO, 1, 3 * 3600, extra_env=env)
+    ctx["expected_dones"] = 1
+    ctx["tag"] = "C16"
+    return driver.summarize(ctx, ev2, cr2, sg2, spec, extra_cov={"harness_build_s": {"serializer": round(bt1, 1), "root": round(bt2, 1)}})
+
+
+SPECS["C16"] = dict(
+    run=run_c16, test="TestVerifC16", level="exploration",
+    module=".", pkgdir=".", harness=["root"],
+    builds=[dict(module=".", pkgdir=".", harness=["root"], stubs=ROOT_STUBS)],
+    title="v1 License classifier identifies every license in its own corpus",
+    technique="oracle by construction (file name -> canonical name) over presentation variants; invariant check of MultipleMatch confidences",
+    rule=("The archive of all 178 files under licenses/ is written by the real ArchiveLicenses and loaded with New(DefaultConfidenceThreshold, ArchiveBytes(b)). case = (license file, variant in {as-is, upper, lower, "
+          "re-flowed to width 40 / 120 with tabs / 72 with CRLF, lines decorated with '// ', '# ', ' * ', '-- '}): NearestMatch(variant(text)) must name the file's canonical name (file name minus .txt and .header; a corpus file "
+          "with the identical normalised text may answer) with confidence at or above the default threshold; only name and the threshold bound are judged, never the exact confidence. "
+          "quick: 36 files x 3 variants; thorough: 178 x 6. Plus: on Licenses of 12 random files at thresholds 0.5/0.8/0.9/0.95, every MultipleMatch result over exact/edited/half texts has confidence >= threshold and no '.header' name when includeHeaders=false. "
+          "Non-trivial = identified case / threshold case with >= 1 result; distinct = (file, variant)."),
+    assumptions=list(V1_ASSUME) + ["the root package's classifier_test.go is stubbed out in the overlay"],
+    floor_evals={"quick": 100, "thorough": 1000},
+    floor_nontrivial={"quick": 100, "thorough": 1000},
+)
+
+
+def c14_root_part(ctx, race_log, only):
+    scratch = ctx["scratch"]
+    tier = ctx["tier"]
+    ser_bin, _ = driver.build_test(scratch, ".", "serializer", ["serializer"], out="serializer")
+    root_bin, bt = driver.build_test(scratch, ".", ".", ["root"], stubs=ROOT_STUBS, race=True, out="root")
+    save = ctx["prop"]
+    ctx["prop"] = "C15"
+    ctx["tag"] = "C14ser"
+    ev1, cr1, _ = driver.run_sharded(ctx, ser_bin, "TestVerifC15Archive", os.path.join(driver.REPO, "serializer"), 1, 1800,
+                                     extra_env={"VERIF_WORKERS": "1", "VERIF_C15_PLAN": "short12"})
+    ctx["prop"] = save
+    if cr1 or not any(e.get("ev") == "done" for e in ev1):
+        raise driver.HarnessError("C14 root part: writing the archive failed")
+    repeats = {"quick": 2, "thorough": 6}[tier]
+    env = {"GORACE": "halt_on_error=0 log_path=%s" % race_log, "VERIF_WORKERS": "1", "VERIF_CASE_TIMEOUT": "900"}
+    if only is not None:
+        env["VERIF_ONLY"] = str(only)
+        repeats = 1
+    ctx["tag"] = "C14root"
+    ev, cr, sg = driver.run_sharded(ctx, root_bin, "TestVerifC14Root", driver.REPO, repeats, 3600, extra_env=env, parallel=1)
+    return {"events": ev, "crashes": cr, "sigs": set(b"root" + x for x in sg), "dones": repeats, "cov": {"root_race_build_s": round(bt, 1), "root_race_processes": repeats}}
+
+
+SPECS["C14"]["root_part"] = c14_root_part
+SPECS["C14"]["builds"].append(dict(module=".", pkgdir=".", harness=["root"], stubs=ROOT_STUBS, race=True))
+SPECS["C14"]["rule"] += (" Root part: a licenseclassifier.License loaded from an archive of 12 short licenses (written by the real ArchiveLicenses) is hit by 4-16 goroutines calling MultipleMatch/NearestMatch "
+                         "(-race binary, 2/6 processes); results are compared with the same calls made alone.")
